@@ -3,6 +3,7 @@ package jschema
 import (
 	"github.com/jsightapi/jsight-schema-core/notations/jschema/ischema"
 	"github.com/jsightapi/jsight-schema-core/notations/jschema/ischema/constraint"
+	"strings"
 )
 
 func UserTypeNamesFromEachTypeConstraint(node ischema.Node) []string {
@@ -24,7 +25,7 @@ func UserTypeNamesFromTypeConstraint(node ischema.Node) []string {
 	}
 
 	name := typ.Bytes().Unquote().String()
-	if name[0] == '@' {
+	if strings.HasPrefix(name, "@") {
 		return []string{name}
 	}
 
@@ -45,7 +46,7 @@ func UserTypeNamesFromTypesListConstraint(node ischema.Node) []string {
 	res := make([]string, 0, list.Len())
 
 	for _, name := range list.Names() {
-		if name[0] == '@' {
+		if strings.HasPrefix(name, "@") {
 			res = append(res, name)
 		}
 	}
